@@ -559,6 +559,15 @@ Section WithTables.
     do rcfg <- get_resource_config site rname schema false;
     prepare_pilot rcfg q.
 
+  (* _start_pilot_bulk: the resource config is fetched ONCE and the same object is
+     handed to _prepare_pilot for every pilot of the bulk; _prepare_pilot does not
+     change it, so the model threads one immutable value.  The first pilot that
+     raises aborts the bulk. *)
+  Definition launch_bulk (site rname : string) (schema : option string) (qs : list request)
+    : res (list sized) :=
+    do rcfg <- get_resource_config site rname schema false;
+    map_res (prepare_pilot rcfg) qs.
+
   (* the node-size parameters _prepare_pilot derives for that platform *)
   Definition launch_params (site rname : string) (schema : option string) (env_smt : option Z)
     : res nodeparams :=
